@@ -303,6 +303,116 @@ pub fn observe(t: &Tera, ctxs: &[Context], probe: &Probe) -> Obs {
     o
 }
 
+/// `observe` with every engine call guarded: panics are caught, each render runs under a VM step
+/// budget (bounded liveness without a wall clock), and the C07 invariants that can be read off a
+/// result are checked. Returns the record and a list of (invariant, detail) problems.
+pub fn observe_guarded(t: &Tera, ctxs: &[Context], probe: &Probe, budget: u64, do_render: bool) -> (Obs, Vec<(String, String)>) {
+    use crate::common::catch;
+    let mut o = Obs::new();
+    let mut problems: Vec<(String, String)> = Vec::new();
+    let mut names: Vec<String> = t.get_template_names().map(|s| s.to_string()).collect();
+    names.sort();
+    o.insert("names".into(), names.join("|"));
+    for n in &probe.names {
+        o.insert(format!("contains:{}", n), t.contains_template(n).to_string());
+    }
+    let mut all: Vec<String> = names.clone();
+    for n in &probe.names {
+        if !all.contains(n) {
+            all.push(n.clone());
+        }
+    }
+    let mut guarded = |what: String, registered: bool, f: &mut dyn FnMut() -> Result<String, tera::Error>, problems: &mut Vec<(String, String)>| -> String {
+        set_step_limit(steps() + budget);
+        let r = catch(|| f());
+        clear_step_limit();
+        let hit = step_limit_hit();
+        match r {
+            Err(p) => {
+                if hit {
+                    problems.push(("render-exceeds-step-budget".into(), format!("{}: more than {} VM steps", what, budget)));
+                    "STEP-BUDGET".to_string()
+                } else {
+                    problems.push(("panic-in-render".into(), format!("{}: {}", what, p)));
+                    format!("PANIC:{}", p)
+                }
+            }
+            Ok(r) => {
+                if let Some(v) = take_end_state_violation() {
+                    problems.push(("end-state-not-empty".into(), format!("{}: stack/loops/captures = {:?}", what, v)));
+                }
+                if let Err(e) = &r {
+                    let _ = format!("{:?}", e);
+                    let msg = format!("{}", e);
+                    if registered && matches!(e.kind(), ErrorKind::TemplateNotFound(_) | ErrorKind::ComponentNotFound(_)) {
+                        problems.push(("registered-name-not-found".into(), format!("{}: {}", what, msg)));
+                    }
+                    if msg.contains("not properly finalized") {
+                        problems.push(("not-finalized-at-render".into(), format!("{}: {}", what, msg)));
+                    }
+                    if matches!(e.kind(), ErrorKind::Utf8Conversion) {
+                        problems.push(("output-not-utf8".into(), format!("{}: {}", what, msg)));
+                    }
+                }
+                canon(&r)
+            }
+        }
+    };
+    for n in &all {
+        let registered = names.contains(n);
+        if do_render {
+            for (ci, c) in ctxs.iter().enumerate() {
+                let v = guarded(format!("render({}, ctx{})", n, ci), registered, &mut || t.render(n, c), &mut problems);
+                o.insert(format!("render:{}:{}", n, ci), v);
+            }
+        }
+        let vars = match t.get_template_variables(n) {
+            Ok(v) => {
+                let mut v: Vec<&str> = v.into_iter().collect();
+                v.sort();
+                format!("OK:{}", v.join(","))
+            }
+            Err(e) => format!("ERR[{}]:{}", kind_tag(e.kind()), e),
+        };
+        o.insert(format!("vars:{}", n), vars);
+        if do_render && registered {
+            if let Some(c) = ctxs.first() {
+                for b in &probe.blocks {
+                    let v = guarded(format!("render_block({}, {})", n, b), registered, &mut || t.render_block(n, b, c), &mut problems);
+                    let v = if v.starts_with("ERR[Msg]:Block `") { "NOBLOCK".to_string() } else { v };
+                    o.insert(format!("block:{}:{}", n, b), v);
+                }
+            }
+        }
+    }
+    for cp in &probe.comps {
+        let def = match t.get_component_definition(&cp.name) {
+            None => "NONE".to_string(),
+            Some(info) => {
+                let mut s = format!("{}(", info.name());
+                for a in info.args() {
+                    s.push_str(&format!("{}:{}={};", a.name(), a.arg_type().map(|t| t.as_str()).unwrap_or("-"), a.default().map(|v| format!("{}", v)).unwrap_or_else(|| "-".into())));
+                }
+                s.push_str(&format!(")rest={:?} meta=", info.rest_param()));
+                for (k, v) in info.metadata() {
+                    s.push_str(&format!("{}={};", k, v));
+                }
+                s
+            }
+        };
+        let registered = def != "NONE";
+        o.insert(format!("compdef:{}", cp.name), def);
+        if do_render {
+            let ctx = cp.ctx.to_context();
+            for esc in [true, false] {
+                let v = guarded(format!("render_component({}, autoescape={})", cp.name, esc), registered, &mut || t.render_component(&cp.name, &ctx, cp.body.as_deref(), esc), &mut problems);
+                o.insert(format!("comp:{}:{}", cp.name, esc), v);
+            }
+        }
+    }
+    (o, problems)
+}
+
 pub fn first_diff(a: &Obs, b: &Obs) -> Option<String> {
     for (k, va) in a {
         match b.get(k) {
